@@ -1,4 +1,5 @@
 import HappyModel.C20.Judge
+import HappyModel.C20.SeqRun
 /-! Line-protocol driver for C20 (see `hv/props/c20.py` for the other side). -/
 namespace HappyModel.C20.Driver
 open HappyModel.C20 HappyModel.C20.Run HappyModel.C20.Judge
@@ -19,6 +20,8 @@ def handle (hdr : List String) (body : List String) : List String :=
   | ["judge-reservoir"] => judgeRes body
   | ["judge-merkle"] => judgeMerkle body
   | ["judge-tdigest"] => judgeTd body
+  | ["seq"] => SeqRun.runSeq body
+  | ["judge-seq"] => SeqRun.judgeSeq body
   | _ => ["bad-mode"]
 
 end HappyModel.C20.Driver
